@@ -18,6 +18,7 @@ FIXES = [
     ('4b6fb93', 'C18', 'D10 form feed line IndexError'),
     ('537c9db', 'C18', 'D11 unknown group name in replacement'),
     ('e1e8052', 'C18', 'D12 integer too large for text'),
+    ('d7fc2e4', 'C14', 'D13 spooled file rollover position'),
 ]
 
 
